@@ -11,4 +11,11 @@ D = FunctionSpace(mesh, basix.ufl.element("DG", cell, 1))
 u, v, f = TrialFunction(V), TestFunction(V), Coefficient(V)
 uu, vv = TrialFunction(Vv), TestFunction(Vv)
 du, dv = TrialFunction(D), TestFunction(D)
-forms = [f * inner(grad(u), grad(v)) * dx + u * v * ds, inner(grad(uu), grad(vv)) * dx, jump(du) * jump(dv) * dS]
+# coupling between components and between sub-elements: those blocks have no entry on the diagonal
+P2 = basix.ufl.element("Lagrange", cell, 2, shape=(2,))
+P1 = basix.ufl.element("Lagrange", cell, 1)
+W = FunctionSpace(mesh, basix.ufl.mixed_element([P2, P1]))
+wu, wv = TrialFunction(W), TestFunction(W)
+coupled = [(uu[0] * vv[1] + 2 * uu[1] * vv[1] + inner(uu, vv)) * dx,
+           (inner(grad(wu[0]), grad(wv[0])) + wu[2] * wv[0] + wu[0] * wv[2] + wu[2] * wv[2] + wu[1] * wv[1]) * dx]
+forms = coupled + [f * inner(grad(u), grad(v)) * dx + u * v * ds, inner(grad(uu), grad(vv)) * dx, jump(du) * jump(dv) * dS]
